@@ -1869,6 +1869,8 @@ Box<ITV>::drop_some_non_integer_points(Complexity_Class) {
   for (dimension_type k = seq.size(); k-- > 0; ) {
     seq[k].drop_some_non_integer_points();
   }
+  // An interval may have become empty.
+  reset_empty_up_to_date();
 
   PPL_ASSERT(OK());
 }
@@ -1896,6 +1898,8 @@ Box<ITV>::drop_some_non_integer_points(const Variables_Set& vars,
          v_end = vars.end(); v_i != v_end; ++v_i) {
     seq[*v_i].drop_some_non_integer_points();
   }
+  // An interval may have become empty.
+  reset_empty_up_to_date();
 
   PPL_ASSERT(OK());
 }
